@@ -177,6 +177,13 @@ Definition track (g : cfg) (ops : list oper) (e : ent_ev) : list oper :=
     then put_op (mk_oper cc e OP_UPD) ops else ops
   else put_op (mk_oper cc e OP_DEL) ops.
 
+(* does this mapper event leave an (unprocessed) entry in the operations map? *)
+Definition tracked (g : cfg) (e : ent_ev) : bool :=
+  let cc := cls_of g (e_cls e) in
+  k_versioned cc &&
+  ((e_kind e =? OP_INS) || negb (e_kind e =? OP_UPD) ||
+   (is_modified cc (e_colchg e) (e_relchg e) && existsb (real_change cc e) (e_cstate e))).
+
 (* ------------------------------------------------------------------ the application's own DML *)
 Definition same_l (c : nat) (k : pk) (r : lrow) : bool := (l_cls r =? c)%nat && pk_eqb (l_key r) k.
 
@@ -277,8 +284,11 @@ Definition flush (g : cfg) (s : state) (objs : list obj_st) (ents : list ent_ev)
   if negb (g_versioning g)
   then mks (mkdb live' (d_vt d) (d_av d) (d_tx d) (d_chg d)) (s_committed s) (s_uow s) (s_err s)
   else
-  (* before_flush *)
-  let s1 := if existsb (obj_modified g) objs
+  (* before_flush creates the transaction record when the session looks modified; since the repair
+     of finding 10, after_flush creates it as well when operations were tracked although nothing
+     looked modified beforehand (objects loaded and written during the flush).  Nothing in between
+     reads the record, so the model creates it at one point. *)
+  let s1 := if existsb (obj_modified g) objs || existsb (tracked g) ents
             then match u_cur (s_uow s) with None => create_transaction s | Some _ => s end
             else s in
   let d1 := s_db s1 in
